@@ -591,6 +591,18 @@ Definition c10_sc_any_unsigned (pd : parsed) : bool :=
 Definition c10_sc_toplevel_class (package : str) (pd : parsed) : bool :=
   negb (contains_char 46 package) && (match p_aliases pd with [] => false | _ => true end || c10_sc_any_unsigned pd).
 
+(* C10-scala-content-key: the content key of a tagged enum is printed, as it is, as the name of the only parameter of every
+   case class that carries a payload (`case class V(content: T)`): a key with a dash or a leading digit is not an id. *)
+Definition c10_sc_ident_shape (s : str) : bool :=
+  match s with [] => false | c :: r => c10_sc_letter c && forallb c10_sc_id_char r end.
+Definition c10_sc_content_class (pd : parsed) : bool :=
+  existsb (fun e => match e with
+                    | EAlgebraic _ content sh =>
+                      negb (c10_sc_ident_shape content) && existsb (fun v => match v with VUnit _ => false | _ => true end) (evariants sh)
+                    | EUnit _ => false
+                    end) (p_enums pd).
+
 Definition known_C10_sc_grammar (package : str) (pd : parsed) : list string :=
   (if c10_sc_kw_class pd then ["C10-scala-keyword-name"%string] else []) ++
-  (if c10_sc_toplevel_class package pd then ["C10-scala-toplevel-alias"%string] else []).
+  (if c10_sc_toplevel_class package pd then ["C10-scala-toplevel-alias"%string] else []) ++
+  (if c10_sc_content_class pd then ["C10-scala-content-key"%string] else []).
